@@ -508,8 +508,10 @@ class C08(Prop):
             "dumps as modelled; non-trivial = distinct content with >= 2 orders")
     assumptions = ["CPython dict/set iteration order is a function of insertion history and hash seed (covered in the theorems by quantifying "
                    "over all rearrangements)", "json.load is the inverse of the modelled printer (layout oracle)"]
-    partial = {"C08_perm_treeinfo": "full for main_variant = None or the container key of a top-level variant (TI.MainVariantTop); a UID / dashed "
-               "path designating a child is resolved by a first-match scan and is outside the theorem (covered by correspondence)",
+    partial = {"C08_perm_treeinfo": "full for EVERY main_variant under the side condition that siblings are told apart by key and by UID at "
+               "every level (TI.c8Siblings); without the UID part the statement is false - two top-level variants of one UID and "
+               "main_variant = that UID give order-dependent bytes (C08_treeinfo_shared_uid_witness, finding F44); for main_variant None or a "
+               "top-level key the UID part is not needed (C08_perm_treeinfo_top_key)",
                "C08_perm_manifests": "stated on the stored mapping (JEq payloads). For add HISTORIES: proved that two accepted calls at "
                "different [variant][arch][key] addresses commute up to dict order (C08_manifests_updates_commute, C08_rpms_adds_commute, "
                "C08_modules_adds_commute); missing for whole histories: the congruence JEq s s' -> JEq (add s a).1 (add s' a).1 (and the "
@@ -658,8 +660,16 @@ class C08(Prop):
                     new["compose"]["respin"] = 77
                     new["compose"]["id"] = new["compose"]["id"] + ".77"
                     new["release"]["version"] = "9.9"
+                    for nv in new["variants"][:2]:
+                        nv["name"] = nv["name"] + " (renamed)"
+                        if "zz-arch" not in nv["arches"]:
+                            nv["arches"] = nv["arches"] + ["zz-arch"]
+                        nv["paths"].setdefault("os_tree", {})["zz-arch"] = "%s/zz-arch/os" % nv["uid"]
                 elif fmt == "treeinfo":
                     new["release"]["version"] = "9.9"
+                    for nv in new["variants"][:2]:
+                        nv["name"] = nv["name"] + " (renamed)"
+                        nv["paths"] = [p_ for p_ in nv["paths"] if p_[0] != "debug_packages"] + [["debug_packages", "changed/debug"]]
                     new["tree"]["build_timestamp"] = 424242
                     new["tree"]["platforms"] = sorted(set(new["tree"]["platforms"]) | set(["zz-new", "AA-new"]), reverse=True)
                 elif fmt == "discinfo":
